@@ -293,7 +293,8 @@ def read_prelude(name):
     return text, uses, bcast
 
 
-HEADER = """#![allow(unused_imports, unused_variables, dead_code, unused_mut, non_snake_case, unused_parens, unreachable_code, unused_braces, non_camel_case_types, non_upper_case_globals, private_interfaces, unused_assignments)]
+HEADER = """#![feature(pattern)]
+#![allow(unused_imports, unused_variables, dead_code, unused_mut, non_snake_case, unused_parens, unreachable_code, unused_braces, non_camel_case_types, non_upper_case_globals, private_interfaces, unused_assignments)]
 // GENERATED by /verif/check from /repo working tree -- do not edit.
 use vstd::prelude::*;
 """
